@@ -634,16 +634,31 @@ func scriptStaleTN(rn *Runner) {
 		if L = rn.waitLeader(nil, 30); L == nil {
 			return
 		}
-		var voters []*Node
+		var voters, others []*Node
 		for _, nd := range c.Nodes {
 			if nd != L && nd.Cur() != nil && c.IsVoterNow(L, nd) {
 				voters = append(voters, nd)
+			} else if nd != L && nd.Cur() != nil && c.IsMemberNow(L, nd) {
+				others = append(others, nd)
 			}
 		}
-		if len(voters) == 0 {
+		if len(voters)+len(others) == 0 {
 			return
 		}
-		T := voters[rn.rng.Intn(len(voters))]
+		var T *Node
+		switch {
+		case len(others) > 0 && (len(voters) == 0 || rn.rng.Intn(3) == 0):
+			// the API lets a leader hand over to a server without a vote: it campaigns (TimeoutNow is
+			// obeyed unconditionally) but must never be counted or win
+			T = others[rn.rng.Intn(len(others))]
+		default:
+			T = voters[rn.rng.Intn(len(voters))]
+			if len(voters) >= 2 && rn.rng.Intn(4) == 0 {
+				// ... or to a voter that loses its vote while the TimeoutNow is on its way
+				rn.note("demote %s first", T.name)
+				c.Membership(91, L, "demote", T, 0, 2*hb)
+			}
+		}
 		// the copy arrives while T is still campaigning, just after it has won, or long after
 		d := pick(rn.rng, time.Millisecond, 3*time.Millisecond, hb/4, hb, 2*rn.el())
 		c.Net.SetKindDup("tn", d)
